@@ -7,6 +7,9 @@ package main
 
 import (
 	sdkmath "cosmossdk.io/math"
+	mskeeper "github.com/KiraCore/sekai/x/multistaking/keeper"
+	mstypes "github.com/KiraCore/sekai/x/multistaking/types"
+	authtypes "github.com/cosmos/cosmos-sdk/x/auth/types"
 	layer2types "github.com/KiraCore/sekai/x/layer2/types"
 	layer2keeper "github.com/KiraCore/sekai/x/layer2/keeper"
 	tokenstypes "github.com/KiraCore/sekai/x/tokens/types"
@@ -284,6 +287,7 @@ func runC12(r *Rec) {
 		}
 	}
 	c12DirectAndRole(r)
+	c12PrefixLikeAddresses(r)
 	c12UpgradeWindow(r)
 	c12YearWindow(r)
 	c12TokenCaps(r)
@@ -658,6 +662,85 @@ func c12DirectAndRole(r *Rec) {
 			continue
 		}
 		w.ApplyUpdates(br.Updates)
+		c12RoundTrip(r, w, label)
+	}
+}
+
+// c12PrefixLikeAddresses: accounts whose address begins with a byte that is also a store prefix of some module (0x01 …
+// 0x07: multistaking, slashing, recovery, upgrade; 0x00, 0x30 …: gov, staking). They delegate, register as delegators, earn
+// rewards, set auto-compounding, undelegate a part and register identity records; then the round trip. An export that
+// cuts a prefix off a key twice, or an iteration bound computed from the address, shows here and nowhere else.
+func c12PrefixLikeAddresses(r *Rec) {
+	for variant, bytesOf := range [][]byte{{0x01, 0x02, 0x03, 0x04}, {0x05, 0x06, 0x07, 0x00}, {0x06, 0x30, 0x31, 0x32}} {
+		if r.Tier == "quick" && (variant+int(r.Seed))%3 == 0 {
+			continue
+		}
+		label := fmt.Sprintf("prefix-like-addresses-%d", variant)
+		r.Mark(label)
+		fb := map[int]byte{}
+		for i, b := range bytesOf {
+			fb[2+i] = b
+		}
+		w := NewWorld(WorldOpts{NAcc: 7, NVal: 2, SudoAccs: []int{6}, FirstByte: fb})
+		ms := mskeeper.NewMsgServerImpl(w.app.MultiStakingKeeper, w.app.BankKeeper, w.app.CustomGovKeeper, w.app.CustomStakingKeeper)
+		gms := govkeeper.NewMsgServerImpl(w.app.CustomGovKeeper)
+		val := sdk.ValAddress(w.addrs[0]).String()
+		br := w.Block(nil, BlockOpts{Mid: func(ctx sdk.Context) {
+			try := func(what string, f func(c sdk.Context) error) {
+				err := withCache(ctx, f)
+				r.Count(fmt.Sprintf("prefix-like:%s:%v", what, err == nil))
+			}
+			try("pool", func(c sdk.Context) error {
+				_, e := ms.UpsertStakingPool(sdk.WrapSDKContext(c), mstypes.NewMsgUpsertStakingPool(w.addrs[0].String(), val, true, sdk.NewDecWithPrec(5, 1)))
+				return e
+			})
+			for i := 2; i < 6; i++ {
+				a := w.addrs[i].String()
+				try("delegate", func(c sdk.Context) error {
+					_, e := ms.Delegate(sdk.WrapSDKContext(c), mstypes.NewMsgDelegate(a, val, sdk.NewCoins(sdk.NewInt64Coin("ukex", int64(1000000*(i+1))))))
+					return e
+				})
+				try("register", func(c sdk.Context) error {
+					_, e := ms.RegisterDelegator(sdk.WrapSDKContext(c), mstypes.NewMsgRegisterDelegator(a))
+					return e
+				})
+				try("compound", func(c sdk.Context) error {
+					_, e := ms.SetCompoundInfo(sdk.WrapSDKContext(c), mstypes.NewMsgSetCompoundInfo(a, i%2 == 0, []string{"ukex"}))
+					return e
+				})
+				try("identity", func(c sdk.Context) error {
+					_, e := gms.RegisterIdentityRecords(sdk.WrapSDKContext(c), govtypes.NewMsgRegisterIdentityRecords(w.addrs[i], []govtypes.IdentityInfoEntry{{Key: "contact", Info: fmt.Sprintf("c%d", i)}}))
+					return e
+				})
+			}
+			if pool, found := w.app.MultiStakingKeeper.GetStakingPoolByValidator(ctx, val); found {
+				try("rewards", func(c sdk.Context) error {
+					coins := sdk.NewCoins(sdk.NewInt64Coin("ukex", 1000000))
+					if e := w.app.BankKeeper.MintCoins(c, "mint", coins); e != nil {
+						return e
+					}
+					if e := w.app.BankKeeper.SendCoinsFromModuleToModule(c, "mint", authtypes.FeeCollectorName, coins); e != nil {
+						return e
+					}
+					w.app.MultiStakingKeeper.IncreasePoolRewards(c, pool, coins)
+					return nil
+				})
+			}
+			for i := 2; i < 6; i += 2 {
+				a := w.addrs[i].String()
+				try("undelegate", func(c sdk.Context) error {
+					_, e := ms.Undelegate(sdk.WrapSDKContext(c), mstypes.NewMsgUndelegate(a, val, sdk.NewCoins(sdk.NewInt64Coin("ukex", 500000))))
+					return e
+				})
+			}
+		}})
+		if br.Panicked != nil {
+			r.Count("populate:panicked")
+			continue
+		}
+		w.ApplyUpdates(br.Updates)
+		nRew := len(w.app.MultiStakingKeeper.GetAllDelegatorRewards(w.ReadCtx()))
+		r.Count(fmt.Sprintf("prefix-like:delegators-with-rewards=%d", nRew))
 		c12RoundTrip(r, w, label)
 	}
 }
